@@ -1228,6 +1228,7 @@ pub fn configs(prop: CProp, tier: Tier) -> Vec<CCfg> {
             let alpha = A_REPLY_UNOWED | A_ABANDON | A_DRAIN | A_EOF | A_RERR | A_ADVANCE | A_DROPDISPATCH;
             let mut tr = vec![(Flavour::Always, 1), (Flavour::Coupled, 1), (Flavour::Coupled, 2)];
             tr.push((Flavour::Indep, 1));
+            tr.push((Flavour::FlushFrees, 1));
             for n in 1..=3usize {
                 for mif in 1..=2usize.min(n) {
                     for buf in [1usize, 2] {
@@ -1449,6 +1450,8 @@ pub fn configs(prop: CProp, tier: Tier) -> Vec<CCfg> {
                 (Flavour::Coupled, 2),
                 (Flavour::Indep, 1),
                 (Flavour::Indep, 2),
+                (Flavour::FlushFrees, 1),
+                (Flavour::FlushFrees, 2),
             ] {
                 for n in 1..=3usize {
                     for mif in 1..=2usize {
